@@ -46,7 +46,7 @@ func canonLiteral(k string, g *prng.R) interface{} {
 			if str, ok := s.(string); ok && k == "XMLSchemaDateTime" && len(str) > 0 && str[len(str)-6:] == "+00:00" {
 				continue
 			}
-			if f, ok := s.(float64); ok && k == "XMLSchemaNonNegativeInteger" && f > 1e15 {
+			if f, ok := s.(float64); ok && k == "XMLSchemaNonNegativeInteger" && f > 1e15 && f < 9e18 {
 				continue
 			}
 			return s
